@@ -557,6 +557,11 @@ impl<R: RuleType> Error<R> {
                 _ => underline.push(' '),
             }
         }
+        // The displayed line can be shorter than the column (carriage returns and the line
+        // terminator are not displayed): keep the marker under the reported column.
+        for _ in underline.chars().count()..offset {
+            underline.push(' ');
+        }
 
         if let Some(end) = end {
             underline.push('^');
